@@ -22,7 +22,7 @@ func checkC01(r *Run) {
 	r.Rule("R4", "provenance of trusted HTML: every conversion to template.HTML in the module has an operand that is template text, already rendered output, \"\", json.Marshal output, raw's own parameter, or debug's <pre> wrapper", 4)
 	r.Rule("R5", "values obtained by reflection keep their dynamic type: the evaluator never reads a reflect.Value through String()", 1)
 	sinkWritesRule(r, "R1")
-	sinkDispatchRule(r, "R2")
+	sinkClassesRuleSSA(r, "R2")
 	sinkRoutingRule(r, "R3")
 	htmlProvenanceRule(r, "R4")
 	reflectStringRule(r, "R5")
@@ -131,6 +131,8 @@ func sinkWritesRule(r *Run, rule string) {
 				r.Ok(rule, f.Name(), con, w.Pos(c.Pos()), "inside the sink")
 			} else if family[f.Obj] {
 				r.Ok(rule, f.Name(), con, w.Pos(c.Pos()), "inside a helper that only the sink (and its helpers) call")
+			} else if arg := writtenString(w, info, c); arg != nil && htmlOrigin(w, info, f, arg, nil, 0) == originTemplateText {
+				r.Ok(rule, f.Name(), con, w.Pos(c.Pos()), "literal template text, written as it is (what the sink does with it)")
 			} else {
 				r.Bad(rule, f.Name(), con, w.Pos(c.Pos()), "output is written to a strings.Builder outside the sink: it bypasses the typed escaping dispatch")
 			}
@@ -145,6 +147,23 @@ func sinkWritesRule(r *Run, rule string) {
 			}
 		}
 	}
+}
+
+const originTemplateText = "template text (HTMLLiteral.Value)"
+
+// writtenString: the string a builder Write / WriteString call writes (nil when it is not a string seen through a bytes-of-string conversion).
+func writtenString(w *World, info *types.Info, c *ast.CallExpr) ast.Expr {
+	if len(c.Args) != 1 {
+		return nil
+	}
+	a := unparen(c.Args[0])
+	if bc, ok := a.(*ast.CallExpr); ok && isBytesOfString(w, info, bc) && len(bc.Args) == 1 {
+		return unparen(bc.Args[0])
+	}
+	if tv, ok := info.Types[a]; ok && isBasicKind(tv.Type, types.String) {
+		return a
+	}
+	return nil
 }
 
 // bytesOfString: module functions func(string) []byte used to hand a string to Write.
@@ -558,7 +577,7 @@ func htmlOrigin(w *World, info *types.Info, f *FuncInfo, e ast.Expr, rawFns map[
 	}
 	if bx, fld := fieldOf(info, e); fld != nil && fld.Name() == "Value" {
 		if tv, ok := info.Types[bx]; ok && namedIs(tv.Type, astPath, "HTMLLiteral") {
-			return "template text (HTMLLiteral.Value)"
+			return originTemplateText
 		}
 	}
 	if c, ok := e.(*ast.CallExpr); ok {
@@ -957,51 +976,7 @@ func topLevelWriteRule(r *Run, rule string) {
 		r.Bad(rule, top.Name(), "statement loop", w.Pos(loops[0].Pos()), "the statements must be visited by a range over program.Statements (ascending, each once)")
 		return
 	}
-	// exactly one sink call, a top-level statement of the loop body, after the error check
-	nSink := 0
-	okPos := false
-	errCheck := -1
-	for i, st := range rs.Body.List {
-		if ifs, isIf := st.(*ast.IfStmt); isIf && isErrNotNil(info, ifs.Cond) {
-			errCheck = i
-		}
-		if es, isEs := st.(*ast.ExprStmt); isEs {
-			if c, isC := es.X.(*ast.CallExpr); isC && calleeOf(info, c) == sink.Obj {
-				if errCheck >= 0 && i > errCheck {
-					okPos = true
-				}
-			}
-		}
-	}
-	for _, c := range callsIn(top.Decl.Body, true) {
-		if calleeOf(info, c) == sink.Obj {
-			nSink++
-		}
-	}
-	if nSink == 1 && okPos {
-		r.Ok(rule, top.Name(), "one sink call per statement, after the error check", w.Pos(rs.Pos()), "top-level statement of the loop body")
-	} else {
-		r.Bad(rule, top.Name(), fmt.Sprintf("%d sink call(s)", nSink), w.Pos(rs.Pos()), "each statement's value must be written exactly once, after its error was checked")
-	}
-	// the builder's String() is returned after the loop only
-	okRet := true
-	n := 0
-	for _, ret := range returnsIn(top.Decl.Body) {
-		if len(ret.Results) != 2 {
-			continue
-		}
-		if c, ok := unparen(ret.Results[0]).(*ast.CallExpr); ok && methodIs(calleeOf(info, c), "strings", "Builder", "String") {
-			n++
-			if ret.Pos() < rs.End() {
-				okRet = false
-			}
-		}
-	}
-	if okRet && n == 1 {
-		r.Ok(rule, top.Name(), "output returned after the loop", w.Pos(top.Decl.Pos()), "return bb.String(), nil")
-	} else {
-		r.Bad(rule, top.Name(), "return of the output", w.Pos(top.Decl.Pos()), "the accumulated output must be returned once, after every statement was processed")
-	}
+	topLevelOnceRuleSSA(r, rule)
 }
 
 func silentStatementsRule(r *Run, rule string) {
@@ -1210,6 +1185,16 @@ func literalTextRule(r *Run, rule string) {
 			if c, ok := w.Parent(nd).(*ast.CallExpr); ok {
 				if t, isConv := isConversion(info, c); isConv && namedIs(t, htmlTplPath, "HTML") {
 					r.Ok(rule, f.Name(), con, w.Pos(nd.Pos()), "plain conversion to template.HTML (verbatim arm of the sink)")
+					return true
+				}
+			}
+			if c, ok := w.Parent(nd).(*ast.CallExpr); ok && isBuilderWrite(info, c) && writtenString(w, info, c) == ast.Expr(nd.(ast.Expr)) {
+				r.Ok(rule, f.Name(), con, w.Pos(nd.Pos()), "written to the output as it is")
+				return true
+			}
+			if bc, ok := w.Parent(nd).(*ast.CallExpr); ok && isBytesOfString(w, info, bc) {
+				if c, ok := w.Parent(bc).(*ast.CallExpr); ok && isBuilderWrite(info, c) {
+					r.Ok(rule, f.Name(), con, w.Pos(nd.Pos()), "written to the output as it is")
 					return true
 				}
 			}
